@@ -1633,7 +1633,7 @@ class Stream(AbstractStream):
         if TP and flow and (phase or self._imol.data.ndim == 2):
             self._imol._data_cache = other._imol._data_cache
         else:
-            self._imol._data_cache.clear()
+            self._imol._data_cache = {}
         if TP:
             self._thermal_condition = other._thermal_condition
         if flow:
